@@ -43,19 +43,19 @@ func (wr *Writer) colorJSON(data any, depth int) {
 		wr.buf = append(wr.buf, []byte(strconv.FormatInt(td, 10))...)
 	case uint:
 		wr.buf = append(wr.buf, wr.NumberColor...)
-		wr.buf = append(wr.buf, []byte(strconv.FormatInt(int64(td), 10))...)
+		wr.buf = append(wr.buf, []byte(strconv.FormatUint(uint64(td), 10))...)
 	case uint8:
 		wr.buf = append(wr.buf, wr.NumberColor...)
-		wr.buf = append(wr.buf, []byte(strconv.FormatInt(int64(td), 10))...)
+		wr.buf = append(wr.buf, []byte(strconv.FormatUint(uint64(td), 10))...)
 	case uint16:
 		wr.buf = append(wr.buf, wr.NumberColor...)
-		wr.buf = append(wr.buf, []byte(strconv.FormatInt(int64(td), 10))...)
+		wr.buf = append(wr.buf, []byte(strconv.FormatUint(uint64(td), 10))...)
 	case uint32:
 		wr.buf = append(wr.buf, wr.NumberColor...)
-		wr.buf = append(wr.buf, []byte(strconv.FormatInt(int64(td), 10))...)
+		wr.buf = append(wr.buf, []byte(strconv.FormatUint(uint64(td), 10))...)
 	case uint64:
 		wr.buf = append(wr.buf, wr.NumberColor...)
-		wr.buf = append(wr.buf, []byte(strconv.FormatInt(int64(td), 10))...)
+		wr.buf = append(wr.buf, []byte(strconv.FormatUint(td, 10))...)
 
 	case float32:
 		wr.buf = append(wr.buf, wr.NumberColor...)
